@@ -472,9 +472,12 @@ def opRemove (inp impl : Json) : Except String Resp := do
   let its ← listF itJ inp "its"
   let R ← reqsJ (← fld inp "reqs")
   let maxPrice ← priceJ (← fld inp "maxPrice")
+  -- `SatisfiesMinValues` on the whole list: (options needed to meet every floor, error)
+  let (needed, nerr) := Karp.Consolidate.satisfiesMinValues R its
+  let tail := [("needed", jInt (needed : Int)), ("neededErr", jBool nerr)]
   let model := match Karp.Consolidate.removeByPrice ridKey R maxPrice its with
-    | none => jObj [("err", jBool true), ("kept", jArr [])]
-    | some kept => jObj [("err", jBool false), ("kept", jArr (kept.map (fun it => jStr it.name)))]
+    | none => jObj ([("err", jBool true), ("kept", jArr [])] ++ tail)
+    | some kept => jObj ([("err", jBool false), ("kept", jArr (kept.map (fun it => jStr it.name)))] ++ tail)
   -- the property's price clause on what the real filter kept, under the hypotheses of C06_price
   let spec ← match fldOpt impl "kept", maxPrice with
     | some k, some mp => do
